@@ -10,7 +10,7 @@ Local Open Scope R_scope.
 #[local] Remove Hints NumQ NumZ : typeclass_instances.
 
 (* ---------------------------------------------------------------------------------------------
-   Cholesky (source after the repair /repo 50a1217: forward() asserts no NaN in L AND info = 0).
+   Cholesky (source after the repair /repo 3f16d24: forward() asserts no NaN in L AND info = 0).
    Contract of the oracles (n x n systems):
      chol_ex_contract n cholesky_ex   : A SPD  -> cholesky_ex up A = (L, 0), L triangular with non-zero
                                          diagonal, NaN-free, L L^T = A (U^T U = A for upper);
